@@ -75,12 +75,21 @@ class CallMixin:
         if name in ("reduce", "functools.reduce") and len(args) >= 2:
             self.iterate(args[1], node)
             acc = args[2] if len(args) > 2 else self.elem_of(args[1])
+            # effects of the reducer itself, recorded per call site (used by the fold rule C02.T4)
+            saved_e, saved_t = self.effs, self.tries
+            self.effs, self.tries = set(), []
+            try:
+                self.call_val(args[0], [DYN, DYN], {}, node)
+                raw = {e for e, _ in self.effs}
+            finally:
+                self.effs, self.tries = saved_e, saved_t
+            self.eng.reduce_sites.setdefault((self.cv.label(), node.lineno), set()).update(raw)
             ret = self.call_val(args[0], [acc.join(DYN) if acc.kinds is not None else acc, self.elem_of(args[1])], {}, node)
             return ret.join(acc)
         if name in ("map", "filter") and len(args) >= 2:
-            self.iterate(args[1], node)
-            ret = self.call_val(args[0], [self.elem_of(args[1])], {}, node)
-            return Val(kinds=FS({"generator"}), elem=ret if name == "map" else self.elem_of(args[1]))
+            # lazy: the function runs (and the source is iterated) when the result is consumed
+            lazy = CV("lazy", name=f"{name}@{node.lineno}", env={"#f": args[0], "#xs": args[1]})
+            return Val(kinds=FS({"generator"}), elem=DYN if name == "map" else self.elem_of(args[1]), lit=True, calls=FS({lazy}))
         if name in ITER_CONSUMERS and args:
             for a in args:
                 self.iterate(a, node)
@@ -526,7 +535,8 @@ class CallMixin:
             if mcv is not None:
                 a = [of_kind("Evaluator"), Val(rules=FS({r}))]
                 effs, ret = self.eng.analyze(mcv, a)
-                self.absorb(effs, f"visit({r}) at {here}", (mcv.key(), tuple(x.key() for x in a)))
+                if not self.eng.novisit:
+                    self.absorb(effs, f"visit({r}) at {here}", (mcv.key(), tuple(x.key() for x in a)))
                 out[r] = ret
             else:
                 # Interpreter.__default__ = visit_children -> a list of the children's values
